@@ -97,40 +97,7 @@ def build(tier):
 
     c06 = {"C06"}
     both = {"C06", "C02"}
-    u.add_fn(EV, "push_block", impl="Bindings", contract=Contract(
-        ensures=[("one_more", "final(self).block_bindings@.len() == old(self).block_bindings@.len() + 1")], props=c06))
-    u.add_fn(EV, "pop_block", impl="Bindings", contract=Contract(
-        requires=[("at_least_two", "old(self).block_bindings@.len() >= 2")],
-        ensures=[("one_less", "final(self).block_bindings@ == old(self).block_bindings@.drop_last()")],
-        props=both))
-    u.add_fn(ENV, "current_frame_mut", impl="Env", contract=Contract(
-        requires=[("nonempty", "old(self).stack.0@.len() >= 1")],
-        ensures=[("is_top", "*r == old(self).stack.0@.last()"),
-                 ("frame", "final(self).stack.0@ == old(self).stack.0@.drop_last().push(*final(r))"),
-                 ("rest", "final(self).ticks == old(self).ticks && final(self).tick_limit == old(self).tick_limit && final(self).stack_limit == old(self).stack_limit && final(self).enforce_sandbox == old(self).enforce_sandbox")],
-        props=both))
-    rest = "final(self).stack.0@.len() == old(self).stack.0@.len() && final(self).stack.0@.drop_last() == old(self).stack.0@.drop_last()"
-    u.add_fn(ENV, "push_binding_block", impl="Env", contract=Contract(
-        requires=[("nonempty", "old(self).stack.0@.len() >= 1")],
-        ensures=[("one_more", "top(*final(self)).bindings.block_bindings@.len() == top(*old(self)).bindings.block_bindings@.len() + 1"),
-                 ("same_pending", "top(*final(self)).exprs_to_eval == top(*old(self)).exprs_to_eval && top(*final(self)).evalled_values == top(*old(self)).evalled_values && top(*final(self)).bindings_next_block == top(*old(self)).bindings_next_block"),
-                 ("others", rest)], props=c06))
-    u.add_fn(ENV, "push_expr_to_eval", impl="Env", contract=Contract(
-        requires=[("nonempty", "old(self).stack.0@.len() >= 1")],
-        ensures=[("pushed", "top(*final(self)).exprs_to_eval@ == top(*old(self)).exprs_to_eval@.push((state, expr))"),
-                 ("same_blocks", "top(*final(self)).bindings == top(*old(self)).bindings && top(*final(self)).evalled_values == top(*old(self)).evalled_values"),
-                 ("others", rest)], props=c06))
-    u.add_fn(ENV, "push_value", impl="Env", contract=Contract(
-        requires=[("nonempty", "old(self).stack.0@.len() >= 1")],
-        ensures=[("pushed", "top(*final(self)).evalled_values@ == top(*old(self)).evalled_values@.push(value)"),
-                 ("same_blocks", "top(*final(self)).bindings == top(*old(self)).bindings && top(*final(self)).exprs_to_eval == top(*old(self)).exprs_to_eval"),
-                 ("others", rest)], props=c06))
-    u.add_fn(ENV, "pop_value", impl="Env", contract=Contract(
-        requires=[("nonempty", "old(self).stack.0@.len() >= 1")],
-        ensures=[("popped", "r is Some <==> top(*old(self)).evalled_values@.len() > 0"),
-                 ("rest_values", "top(*final(self)).evalled_values@ == (if top(*old(self)).evalled_values@.len() > 0 { top(*old(self)).evalled_values@.drop_last() } else { top(*old(self)).evalled_values@ })"),
-                 ("same_blocks", "top(*final(self)).bindings == top(*old(self)).bindings && top(*final(self)).exprs_to_eval == top(*old(self)).exprs_to_eval"),
-                 ("others", rest)], props=c06))
+    common.add_env_accessors(u, c06, both)
 
     rw.ITER_BY_VALUE_OK.add("bindings_next_block")
     rc = rw.simple("R11", r"Rc::clone\(&?(\w+)\)", r"vc_clone(&\1)")
